@@ -63,6 +63,16 @@ CLAIMED = {
    technique="deterministic simulation of transformer/reduction interleavings over products; the intersection of the unreduced components as reference",
    text="Seeded histories over seven product instantiations; the intersection of the UNREDUCED components (read directly) must be unchanged by every observer (each observer triggers a reduction), OK() must hold after every completed operation, transformers must contain the pointwise-defined image of the intersection, definite predicate answers are refuted by points of the intersection. Two genuine defects are listed as known findings (component-wise difference_assign; Grid projection of the zero-dimensional universe).",
    note="Probe-point based: a lost point is a proof, absence of alarms is not. Box and octagon components are not instantiated."),
+ "C07": dict(
+   category="exploration", design_ref="DESIGN.md §4 C07",
+   technique="deterministic simulation of solve/mutator/strategy interleavings against brute-force enumeration of the lexicographic minimum for every parameter assignment of a box; bounded-step liveness on maybe_abandon() checkpoints",
+   text="Seeded histories over tiny parametric problems: after every solve (incremental or first) and for fresh problems built from the object's own getters under the strategy settings, the solution tree is walked exactly as documented for every parameter assignment in [0,4]^p and must give the brute-force lexicographic minimum, bottom exactly when the region has no non-negative integer point, never refer to an undeclared artificial parameter, and solve() must return within the checkpoint budget.",
+   note="Big parameter not exercised; parameters bounded in 80% of the plans. 21 genuine defects of the PIP solver were repaired on the way (fix: commits)."),
+ "C08": dict(
+   category="exploration", design_ref="DESIGN.md §4 C08",
+   technique="deterministic simulation of adversarial ascending chains with representation twins, certificate monitoring and the token protocol",
+   text="Seeded ascending chains: every widening result contains the larger argument, equals the result on canonical twins of both arguments, strictly decreases the convergence certificate on every non-stationary step; with tokens the object is unchanged and a token is consumed exactly when plain widening would lose precision; limited/bounded extrapolations lie between the larger argument and the plain widening and keep the supplied constraints the larger argument satisfies.",
+   note="Powerset widenings are not driven. One known finding (NNC polyhedra that are not topologically closed: documented representation dependence of H79/BHRZ03)."),
 }
 
 NOT_APPLICABLE = {
@@ -76,7 +86,7 @@ NOT_APPLICABLE = {
 # claimed in DESIGN.md but not built yet: listed as not applicable *for now* with that reason
 PENDING = {}
 # built, but not registered until quiet on the unchanged tree (triage in progress)
-HOLD = {"C10"}
+HOLD = set()
 
 def main():
     props = [json.loads(l)["id"] for l in open(os.path.join(ROOT, "properties.jsonl"))]
